@@ -116,6 +116,10 @@ def oracle(c, e):
     cres = e["C"]
     if "error" in cres:
         return f"uninterrupted run raised {cres['error']}"
+    # the property is about interruptions BEFORE convergence: when the uninterrupted run has already stopped at or before the
+    # (last) interruption point, "continuing" performs sweeps the uninterrupted run never made (solve() always sweeps at least once)
+    if cres["obs"][-1]["iteration"] <= c["cuts"][-1]:
+        return "SKIP"
     # restored state == state at the interruption
     got0, want0 = e["B"][0]["obs"][0], a["obs"][-1]
     for key in FIELDS:
@@ -136,8 +140,12 @@ def run(ctx, build):
     with cf.ThreadPoolExecutor(max_workers=8) as ex:
         exps = list(ex.map(lambda ic: experiment(ctx, ic[1], ic[0]), enumerate(cs)))
     corr, viols, items, meta = [], [], [], []
+    n_after_convergence = 0
     for c, e in zip(cs, exps):
         why = oracle(c, e)
+        if why == "SKIP":
+            n_after_convergence += 1
+            why = None
         if why:
             viols.append({"key": f"resume:{c['solver']}:{c['seed']}", "what": why, "input": {"case": {k: v for k, v in c.items() if k != 'guard'}}})
         if c["tabular"] and "error" not in e["A"] and e.get("B") and "error" not in e["B"][-1] and not e["B"][-1].get("raised"):
@@ -159,6 +167,7 @@ def run(ctx, build):
                 "tabular dyadic problems (load_checkpoint route, compared with the model) and shipped problems (restore() route through YAML); every case is non-trivial",
         "samples": [{"solver": c["solver"], "problem": c["spec"].get("kind", "tabular"), "cuts": c["cuts"], "total": c["total"], "f": c["f"], "m": c["m"], "async": c["async"], "route": c["route"]} for c in cs[:8]],
         "traces_validated_against_impl": len(items),
+        "experiments_skipped_because_the_uninterrupted_run_stops_at_or_before_the_interruption": n_after_convergence,
     }
     return {"coverage": cov, "corr_failures": corr, "impl_violations": viols,
             "assumptions": ["Orbax encoding/decoding and Hydra/OmegaConf configuration round trip are contracts validated by these fresh-process runs, not proved",
@@ -176,4 +185,6 @@ def replay(ctx, build, data):
     c = inp["case"]
     e = experiment(ctx, c, 999)
     why = oracle(c, e)
+    if why == "SKIP":
+        return {"fails": False, "note": "the uninterrupted run stops at or before the interruption point: outside the property"}
     return {"fails": bool(why), "why": why}
